@@ -46,6 +46,12 @@ def obligations(tier):
     # a member swapped for one of the same name that reads another input (remove_indicator + add_indicator)
     for name, kw, n in (("SMA", dict(period=2), 5), ("EMA", dict(period=2), 5), ("WMA", dict(period=2), 5), ("HMA", dict(period=4), 8)):
         obs.append(Ob(f"swap-input/{name}{kw}/close->open/n={n}", dict(spec=["ind", name, kw], n=n, input="open"), DEF, fn="run_swap", weight=n * 3, budget_s=300))
+    # 'up to the error the configured rounding can introduce': at the default round_value (4) under the eps rounding
+    # model, stored reading vs definition within k half-units, for price inputs and for a late input reading of either sign
+    from harness import C10
+    for name, kw, w, k in (("WMA", dict(period=2), 1, 1), ("WMA", dict(period=3), 2, 1), ("SMA", dict(period=2), 1, None), ("EMA", dict(period=2), 1, 3), ("RMA", dict(period=2), 1, 3)):
+        for late in (None, 1):
+            obs.append(Ob(f"{name}{kw}/round_value=4 within {k or 'i+2'} roundings/{'signed late input' if late else 'price'}/n={w + 4}", dict(spec=["ind", name, kw], n=w + 4, tf=None, part="definition", k=k, late=late), C10.INV, fn="run_rounded", weight=20, budget_s=300))
     # a fast and a slow instance of one class side by side in a Hexital: each follows its own definition
     for name, kw, sib, n in (("SMA", dict(period=3), dict(period=2), 6), ("EMA", dict(period=3), dict(period=2), 6), ("EMA", dict(period=2), dict(period=2, smoothing=3.0), 5), ("RMA", dict(period=3), dict(period=2), 6),
                              ("WMA", dict(period=3), dict(period=2), 6), ("VWMA", dict(period=3), dict(period=2), 5), ("HMA", dict(period=5), dict(period=4), 9), ("HMA", dict(period=4), dict(period=4, input_value="high"), 8)):
@@ -69,6 +75,11 @@ def run_reparam(ctx, P):
     got = ind.as_list()
     ctx.observe("readings", got)
     compare_series(ctx, f"{name}(period 3->2)", got, expected(ctx, name, dict(period=2), cs))
+
+
+def run_rounded(ctx, P):
+    from harness import C10
+    C10.run(ctx, P)
 
 
 def run(ctx, P):
